@@ -320,3 +320,228 @@ func init() {
 			return out
 		}})
 }
+
+// OUTVIEW — a result does not keep a view of an operand's storage.
+//
+// `opOut.Value[1] = ring.Poly{Coeffs: combined.Value[1].Coeffs[:level+1]}` instead of
+// `opOut.Value[1].CopyLvl(level, combined.Value[1])`: the switched ciphertext shares the coefficients of the aggregated
+// share, and changes when the share buffer is reused for the next ciphertext.
+//
+// Rule: in a function with an output parameter (named …Out / out), no assignment stores into a polynomial-carrying
+// component of that parameter (`opOut.Value[i] = …`, `opOut.Value = …`) an expression that is a view — selectors,
+// indexing, slicing, struct literals of such, no call — of the storage of another parameter of pointer, slice or
+// polynomial type.
+func scanOutView(c *core.Ctx) []ob {
+	var out []ob
+	n := 0
+	c.FuncDecls(func(pk *packages.Package, file *ast.File, fd *ast.FuncDecl) {
+		if fd.Body == nil || fileIsTestSupport(c.Program, fd.Pos()) || inExamples(pk) {
+			return
+		}
+		info := pk.TypesInfo
+		fn, _ := info.Defs[fd.Name].(*types.Func)
+		if fn == nil {
+			return
+		}
+		sig := fn.Type().(*types.Signature)
+		outs := map[types.Object]bool{}
+		params := map[types.Object]bool{}
+		for i := 0; i < sig.Params().Len(); i++ {
+			p := sig.Params().At(i)
+			params[p] = true
+			if isOutParamName(p.Name()) && (polyish(p.Type()) || isMetaCarrier(p.Type())) {
+				outs[p] = true
+			}
+		}
+		if len(outs) == 0 {
+			return
+		}
+		fkey := core.FuncKey(pk, fd)
+		// views of another parameter inside an expression
+		var viewOf func(e ast.Expr, depth int) types.Object
+		viewOf = func(e ast.Expr, depth int) types.Object {
+			if depth > 4 {
+				return nil
+			}
+			e = unparen(e)
+			if cl, ok := e.(*ast.CompositeLit); ok {
+				for _, el := range cl.Elts {
+					v := el
+					if kv, ok := el.(*ast.KeyValueExpr); ok {
+						v = kv.Value
+					}
+					if o := viewOf(v, depth+1); o != nil {
+						return o
+					}
+				}
+				return nil
+			}
+			if !isViewExpr(e) {
+				return nil
+			}
+			t := info.TypeOf(e)
+			if t == nil || !hasPointers(t, 0) {
+				return nil
+			}
+			id := rootIdent(e)
+			if id == nil {
+				return nil
+			}
+			o := info.Uses[id]
+			if params[o] && !outs[o] {
+				if _, isIface := o.Type().Underlying().(*types.Interface); isIface {
+					return nil
+				}
+				return o
+			}
+			return nil
+		}
+		ast.Inspect(fd.Body, func(x ast.Node) bool {
+			as, ok := x.(*ast.AssignStmt)
+			if !ok || len(as.Lhs) != len(as.Rhs) || as.Tok != token.ASSIGN {
+				return true
+			}
+			for i, l := range as.Lhs {
+				if _, plain := unparen(l).(*ast.Ident); plain {
+					continue
+				}
+				id := rootIdent(l)
+				if id == nil || !outs[info.Uses[id]] {
+					continue
+				}
+				ls := exprString(l)
+				if !strings.Contains(ls, ".Value") && !strings.Contains(ls, ".Coeffs") && !strings.Contains(ls, ".Q") && !strings.Contains(ls, ".P") {
+					continue
+				}
+				// element stores of residues (`p.Coeffs[i][j] = x`) are data, not views
+				if t := info.TypeOf(l); t == nil || !hasPointers(t, 0) {
+					continue
+				}
+				n++
+				if src := viewOf(as.Rhs[i], 0); src != nil {
+					out = append(out, withProps(violOb("OUTVIEW", fmt.Sprintf("OUTVIEW:%s#%s", fkey, ls), c.Rel(as.Pos()), fmt.Sprintf("%s makes %s a view of the storage of its operand %s (%s) instead of copying it: the result changes when the caller reuses or modifies that operand afterwards", fkey, ls, src.Name(), exprString(as.Rhs[i]))), propsForKey(fkey)...))
+				}
+			}
+			return true
+		})
+	})
+	c.Stats["outview_stores"] = n
+	out = append(out, okOb("OUTVIEW", "OUTVIEW:module", "", fmt.Sprintf("%d rebindings of a component of an output parameter examined, none keeps a view of another operand", n), true))
+	return out
+}
+
+func init() {
+	all := []string{"C04", "C09", "C14", "C15", "C16", "C11", "C12"}
+	core.Register(&core.Rule{Name: "OUTVIEW", Wide: true, Props: all,
+		Doc: "no assignment rebinds a polynomial-carrying component of an output parameter (opOut.Value[i] = …) to a view (selectors, indexing, slicing, struct literals of these, no call) of the storage of another parameter",
+		Run: func(c *core.Ctx) []ob {
+			out := scanOutView(c)
+			for i := range out {
+				if out[i].Key == "OUTVIEW:module" {
+					out[i] = withProps(out[i], all...)
+				}
+			}
+			for _, o := range control(c, "OUTVIEW", scanOutView, "lvfixture.switchInto") {
+				out = append(out, withProps(o, "C16", "C09"))
+			}
+			return out
+		}})
+}
+
+// FLOATU64 — a value multiplied by a scale is not squeezed through a float-to-integer conversion.
+//
+// `uint64(scale*value+0.5) % Q` replaces a big.Float rounding "to save two allocations": as soon as scale*|value|
+// reaches 2^64 (a scale proportional to a modulus of two primes) the conversion saturates and the encoded value is
+// 2^63 whatever the input.
+//
+// Rule: no conversion to uint64/int64/int/uint of a float64 expression that contains a product with an operand whose
+// name contains "scale" (a scaling factor is of the order of a modulus: the product has no reason to fit 64 bits),
+// unless the function compares that operand or the product with a bound first.
+func scanFloatU64(c *core.Ctx) []ob {
+	var out []ob
+	n := 0
+	c.FuncDecls(func(pk *packages.Package, file *ast.File, fd *ast.FuncDecl) {
+		rel := core.ShortPkg(pk.PkgPath)
+		if fd.Body == nil || fileIsTestSupport(c.Program, fd.Pos()) || inExamples(pk) || strings.HasPrefix(rel, "utils/") {
+			return
+		}
+		info := pk.TypesInfo
+		fkey := core.FuncKey(pk, fd)
+		ast.Inspect(fd.Body, func(x ast.Node) bool {
+			call, ok := x.(*ast.CallExpr)
+			if !ok || len(call.Args) != 1 {
+				return true
+			}
+			tv, ok := info.Types[call.Fun]
+			if !ok || !tv.IsType() {
+				return true
+			}
+			b, ok := tv.Type.Underlying().(*types.Basic)
+			if !ok || b.Info()&types.IsInteger == 0 {
+				return true
+			}
+			at, ok := info.TypeOf(call.Args[0]).Underlying().(*types.Basic)
+			if !ok || at.Info()&types.IsFloat == 0 {
+				return true
+			}
+			if av, ok := info.Types[call.Args[0]]; ok && av.Value != nil {
+				return true // a constant
+			}
+			n++
+			scaled := ""
+			ast.Inspect(call.Args[0], func(y ast.Node) bool {
+				be, ok := y.(*ast.BinaryExpr)
+				if !ok || be.Op != token.MUL {
+					return true
+				}
+				for _, e := range []ast.Expr{be.X, be.Y} {
+					if id := rootIdent(e); id != nil && strings.Contains(strings.ToLower(exprString(e)), "scale") {
+						scaled = exprString(e)
+					}
+				}
+				return true
+			})
+			if scaled == "" {
+				return true
+			}
+			// a bound on the operand or on the product checked in the function
+			bounded := false
+			ast.Inspect(fd.Body, func(y ast.Node) bool {
+				if is, ok := y.(*ast.IfStmt); ok {
+					if strings.Contains(exprString(is.Cond), scaled) {
+						if be, ok := unparen(is.Cond).(*ast.BinaryExpr); ok && (be.Op == token.GTR || be.Op == token.GEQ || be.Op == token.LSS || be.Op == token.LEQ) {
+							bounded = true
+						}
+					}
+				}
+				return !bounded
+			})
+			if bounded {
+				return true
+			}
+			out = append(out, withProps(violOb("FLOATU64", fmt.Sprintf("FLOATU64:%s#%s", fkey, exprString(call)), c.Rel(call.Pos()), fmt.Sprintf("%s converts %s to %s: a product with the scaling factor %s has no reason to stay below 2^64 (a scale of the order of a two-prime modulus), and the conversion of a larger float saturates silently", fkey, exprString(call.Args[0]), exprString(call.Fun), scaled)), propsForKey(fkey)...))
+			return true
+		})
+	})
+	c.Stats["floatu64_conversions"] = n
+	out = append(out, okOb("FLOATU64", "FLOATU64:module", "", fmt.Sprintf("%d float-to-integer conversions examined, none of a product with a scaling factor", n), true))
+	return out
+}
+
+func init() {
+	all := []string{"C20", "C07", "C13", "C18", "C06"}
+	core.Register(&core.Rule{Name: "FLOATU64", Wide: true, Props: all,
+		Doc: "no float64 expression containing a product with an operand named …scale… is converted to an integer type, unless the function compares that operand with a bound",
+		Run: func(c *core.Ctx) []ob {
+			out := scanFloatU64(c)
+			for i := range out {
+				if out[i].Key == "FLOATU64:module" {
+					out[i] = withProps(out[i], all...)
+				}
+			}
+			for _, o := range control(c, "FLOATU64", scanFloatU64, "lvfixture.scaleUpFast") {
+				out = append(out, withProps(o, "C20"))
+			}
+			return out
+		}})
+}
